@@ -92,6 +92,7 @@ type Specs struct {
 	Preds     map[string]*Pred     // pkgpath::name and bare name fallback
 	SpecFns   map[string]*SpecFn
 	Axioms    []Axiom
+	InitTable []Axiom // per package: checked at the end of the package initialiser only (mutable registries)
 	GlobalInv []Axiom // per package: holds after init, globals it mentions are never written again
 	Tables    []*TableSpec
 }
@@ -545,6 +546,12 @@ func (sp *Specs) loadSpecFile(path, pkgPath string) error {
 			if _, ok := sp.SpecFns[f.Name]; !ok {
 				sp.SpecFns[f.Name] = f
 			}
+		case "inittable":
+			c, err := parseClause(rest, lineNo)
+			if err != nil {
+				return fail(err)
+			}
+			sp.InitTable = append(sp.InitTable, Axiom{C: c, PkgPath: pkgPath})
 		case "globalinv":
 			c, err := parseClause(rest, lineNo)
 			if err != nil {
